@@ -132,7 +132,7 @@ func admitSweep(c *Ctx, n int, k AdmitKnobs, full, decisive string, extra func(a
 					if fresh.Panic != "" || hist[j].Panic != "" {
 						continue
 					}
-					if d := diffAdmit(fresh, hist[j], "allowed code causes message warnings ann audit evalCalls listCalls metrics"); len(d) > 0 {
+					if d := diffAdmit(fresh, hist[j], strings.ReplaceAll(full, "timeout", "")); len(d) > 0 {
 						c.Violate(Finding{Desc: fmt.Sprintf("the response depends on earlier requests to the same controller (request %d of a group of %d, pass %d): %s", j+1, len(group), pass+1, strings.Join(d, "; ")),
 							Key: "history:" + strings.SplitN(d[0], ":", 2)[0], Input: ops[g0+j], Go: J{"afterEarlierRequests": hist[j], "alone": fresh}})
 						break
